@@ -1104,13 +1104,13 @@ class AInterp(Interp):
             if idx is not None:
                 return ItemV(base, idx)
             return Opq("list-index", [base])
-        if isinstance(base, Opq) and base.tag == "attr:iloc" and base.args and isinstance(base.args[0], Ser) \
+        if isinstance(base, Opq) and base.tag == "attr:iloc" and base.args and isinstance(base.args[0], Nd) \
                 and isinstance(e.slice, ast.Slice):
-            ser = base.args[0]
-            spec = self.parse_subscript(ser, e.slice, st, frame)
+            arr = base.args[0]
+            spec = self.parse_subscript(arr, e.slice, st, frame)
             if spec is None:
-                return Opq("iloc", [ser])
-            return self.make_view(ser.src, spec)
+                return Opq("iloc", [arr])
+            return self.make_view(arr.src if isinstance(arr, Ser) else arr, spec)
         if isinstance(base, Opq) and base.tag == "index-of" and base.args and isinstance(base.args[0], Ser) \
                 and not isinstance(e.slice, ast.Slice):
             li = as_lin_val(self.ev(e.slice, st, frame))
